@@ -29,8 +29,8 @@ RULE = (
     "case = (generated v1 program of 1-4 flows + 0-3 subflows over {user, bot, $v = expr, if/else if/else, counter-bounded "
     "while, break, continue, do subflow, execute with/without result variable}, all intents pairwise distinct, nesting <=2 "
     "quick / <=3 thorough; plan of K=11 histories, each a sequence of segments (start a flow by its leading intent, follow it, "
-    "leave it at a chosen wait or run it to completion, directly or via an unknown intent) + scripted action results + an "
-    "unconstrained tail); every history is run on one shared flow_configs object, then all again in reverse order, then "
+    "leave it at a chosen wait or run it to completion; a leave goes directly to another flow's leading intent, or first through an unknown intent or an intent another wait of the program is for) + scripted action results + an "
+    "unconstrained tail; the last history of a plan is a random walk over the program's intents without obligations); every history is run on one shared flow_configs object, then all again in reverse order, then "
     "history 0 on a freshly built object; non-trivial = the program has a loop or a nested if AND at least one history had >=2 "
     "user turns whose decisions were compared with the reference; distinct = (program text, plans)"
 )
@@ -315,7 +315,10 @@ def ref_turns(P, plan, cov):
     ctx, calls, turns, inprog, total = {}, {}, [], set(), 0
     vals = plan["vals"]
     nz = 0
-    for fi, leave_at, via_unknown in plan["segs"]:
+    mids = []
+    for body in _all_bodies(P):
+        _collect(body, "user", mids)
+    for fi, leave_at, via, pick in plan["segs"]:
         if fi >= len(P["flows"]) or fi in inprog:
             break
         F = P["flows"][fi]
@@ -355,10 +358,11 @@ def ref_turns(P, plan, cov):
         if left:
             inprog.add(fi)
             cov["leaves"] += 1
-            if via_unknown:
+            if via:  # leave with an intent no flow starts with: unknown, or one some flow waits for further down / has been left at
                 nz += 1
                 cov["leaves_unknown"] += 1
-                turns.append({"intent": "zz%d" % nz, "expect": None})
+                cands = [m for m in mids if m != item[1]]
+                turns.append({"intent": cands[pick % len(cands)] if via == 2 and cands else "zz%d" % nz, "expect": None})
         else:
             if upd:
                 turn["expect"].append([dict(upd), None])
@@ -369,7 +373,7 @@ def ref_turns(P, plan, cov):
     return turns
 
 
-def gen_plan(rng, P):
+def gen_plan(rng, P, chaos=False):
     nf = len(P["flows"])
     acts = []
     for body in _all_bodies(P):
@@ -380,8 +384,10 @@ def gen_plan(rng, P):
     intents += [f["lead"] for f in P["flows"]]
     segs = []
     for _ in range(rng.choice([1, 2, 2, 3, 4])):
-        segs.append([rng.randrange(nf), rng.choice([None, None, None, 0, 0, 1, 1, 2, 3]), rng.random() < 0.3])
+        segs.append([rng.randrange(nf), rng.choice([None, None, None, 0, 0, 1, 1, 2, 3]), rng.choice([0, 0, 0, 0, 1, 1, 2]), rng.randrange(64)])
     tail = [rng.choice(intents + ["zz9"]) for _ in range(rng.choice([0, 0, 1, 2, 3]))]
+    if chaos:  # no obligations at all: only history-functionality is checked
+        segs, tail = [], [rng.choice(intents + ["zz9"]) for _ in range(rng.randint(3, 7))]
     vals = {a: [rng.randint(0, 3) for _ in range(rng.randint(1, 3))] for a in acts}
     return {"segs": segs, "tail": tail, "vals": vals}
 
@@ -632,25 +638,25 @@ def run_case(case):
     src = render(P)
     shape = _shape(P)
     K = case.get("k", K_HIST)
-    plans = [gen_plan(random.Random("h%d.%d" % (case["pseed"], j)), P) for j in range(K)]
-    cov = {"iters": 0, "break": 0, "continue": 0, "calls": 0, "leaves": 0, "leaves_unknown": 0}
-    refs = [ref_turns(P, pl, cov) for pl in plans]
+    plans = [gen_plan(random.Random("h%d.%d" % (case["pseed"], j)), P, chaos=(j == K - 1)) for j in range(K)]
+    covs = [{"iters": 0, "break": 0, "continue": 0, "calls": 0, "leaves": 0, "leaves_unknown": 0} for _ in plans]
+    refs = [ref_turns(P, pl, cv) for pl, cv in zip(plans, covs)]
     key = hashlib.sha1((src + repr(plans)).encode()).hexdigest()
     stat = {"calls": 0, "max_call_steps": 0, "max_history_len": 0}
     obs = {
         "steps_compared": 0,
         "turns_compared": 0,
         "histories_run": 0,
-        "leaves": cov["leaves"],
-        "leaves_via_unknown_intent": cov["leaves_unknown"],
+        "leaves": 0,
+        "leaves_via_unknown_intent": 0,
         "repeated_instance_comparisons": 0,
         "repeated_instance_comparisons_after_20": 0,
         "fresh_instance_comparisons": 0,
         "fresh_via_RailsConfig_RuntimeV1_0": 0,
-        "ref_loop_iterations": cov["iters"],
-        "ref_breaks_taken": cov["break"],
-        "ref_continues_taken": cov["continue"],
-        "ref_subflow_calls": cov["calls"],
+        "ref_loop_iterations": 0,
+        "ref_breaks_taken": 0,
+        "ref_continues_taken": 0,
+        "ref_subflow_calls": 0,
         "unchecked_turn_exceptions": 0,
         "programs_with_loop": int(shape["loops"] > 0),
         "programs_with_else_if": int(shape["else_if"] > 0),
@@ -692,6 +698,15 @@ def run_case(case):
     for j in range(K):
         tr = drive(used, cfg, refs[j], plans[j]["vals"], stat)
         obs["histories_run"] += 1
+        for a, b in (
+            ("leaves", "leaves"),
+            ("leaves_via_unknown_intent", "leaves_unknown"),
+            ("ref_loop_iterations", "iters"),
+            ("ref_breaks_taken", "break"),
+            ("ref_continues_taken", "continue"),
+            ("ref_subflow_calls", "calls"),
+        ):
+            obs[a] += covs[j][b]  # of the histories actually run and compared (first pass)
         T1.append(tr)
         bad, nd, nt = _check_o1(refs[j], tr)
         obs["steps_compared"] += nd
@@ -788,7 +803,7 @@ def classify(r):
 
 
 def cases(tier, seed):
-    n = 3000 if tier == "quick" else 40000
+    n = 2400 if tier == "quick" else 20000
     depths = [1, 2, 2, 2] if tier == "quick" else [1, 2, 2, 3, 3, 3]
     for i in range(n):
         yield {
